@@ -7,6 +7,8 @@ from txvc.contracts import Ext, Loop, SpecFn, Unit
 
 from . import c03, c05, c33, common  # noqa: F401
 
+PLAINNAME_UNIT = 'providers.PlainName.__call__'  # defined in c07.py
+
 PROTECT = [
     "self.*", "self.parser.*", "list(new_crossrefs)", "list(self.delayed_crossrefs)",
     "crossref.*", "attr.*", "metamodel.*", "dict(metamodel.scope_providers)",
@@ -34,16 +36,6 @@ ANY_REGISTERED = f"({K1} in {SP} or {K2} in {SP} or {K3} in {SP} or {K4} in {SP}
 OWN = "old(root_of(obj) == self.model)"
 
 Unit(
-    "providers.PlainName.__call__",
-    target="textx/scoping/providers.py::PlainName.__call__",
-    props=[],
-    trusted=True,
-    params={"self": "obj:PlainName", "obj": "any", "attr": "any", "obj_ref": "any"},
-    raises={"TextXSemanticError": []},
-    notes="caller-side contract of the default provider (its own clauses are verified under C07)",
-)
-
-Unit(
     "model.resolve_one_step.body",
     target="textx/model.py::ReferenceResolver.resolve_one_step",
     region="body:for:current_crossrefs",
@@ -61,6 +53,7 @@ Unit(
         " and self.delayed_crossrefs != self.pos_crossref_list",
         "depth(obj) >= 0",
         "is_str(obj.__class__.__name__)",
+        "default_scope.multi_metamodel_support",  # DefaultScopeProvider() is created with the default
         # the cross-ref records where its text ends (established by process_node)
         "is_int(crossref.position_end)",
         # model objects, meta attributes, cross-refs and the resolver machinery are different objects
